@@ -326,6 +326,24 @@ class Sketch:
     def add_case(self, cid, case):
         var = self.declare(cid, case)
         body = case.get("body", case["calls"])
+        if case.get("func_passes"):
+            # the body inside a user-defined function (defined after the declaration, or - "func_early" - at the
+            # top of the script, before the buzzer exists), called P times from setup()
+            tl, tr = [f'mon.write("##case {cid}")'], []
+            self._tl, self._tr = tl, tr
+            for j, c in enumerate(body):
+                tl.append(self.call_line(var, c, case.get("style", 0) + j))
+                tl.extend(self.getters(var))
+            self._tl, self._tr = self.lines, self.reads
+            fn = f"fn{len(self.ids)}"
+            block = [f"def {fn}():"] + ["    " + l for l in tl]
+            if case.get("func_early"):
+                self.lines[1:1] = block
+            else:
+                self.lines += block
+            self.lines += [f"{fn}()"] * case["func_passes"]
+            self.reads += tr * case["func_passes"]
+            return
         if case.get("for_passes"):
             # the body inside `for k in range(P):` in setup(): P executions of the same emitted block
             tl, tr = [f'mon.write("##case {cid}")'], []
@@ -721,6 +739,10 @@ def build_cases(ctx):
         add("loop", body * passes, rng.choice(DEFAULTS), style=rng.randrange(6))
         if n % 4 == 3:
             cases[-1].update({"for_passes": passes, "body": body})     # `for k in range(P):` in setup()
+        elif n % 4 == 1:
+            # def fn(): ...; fn() x P.  (A function defined BEFORE the Buzzer declaration cannot be used here: the
+            # parser rejects getter calls on a name that is not yet a known buzzer - ValueError, a clean reject.)
+            cases[-1].update({"func_passes": passes, "func_early": False, "body": body})
         else:
             cases[-1].update({"passes": passes, "body": body})         # `while True:` -> loop(), P passes
     # (6) state feedback: frequency-type arguments written as expressions over the buzzer's own getters
@@ -813,7 +835,7 @@ def resolve_from_trace(case, segs):
     return dict(case, calls=calls)
 
 
-AUX_KEYS = ("passes", "for_passes", "body", "duo", "duo_id", "duo_role", "duo_order", "partner")
+AUX_KEYS = ("passes", "for_passes", "func_passes", "func_early", "body", "duo", "duo_id", "duo_role", "duo_order", "partner")
 
 
 def plain(case, **over):
@@ -1074,7 +1096,7 @@ def run(ctx: C.Ctx):
         import shutil as _sh
         if _sh.which("clang++"):
             pick = [i for i, c in enumerate(cases) if "duo_id" not in c][::7][:600]
-            sub = [plain(cases[i], **{k: cases[i][k] for k in ("passes", "for_passes", "body") if k in cases[i]})
+            sub = [plain(cases[i], **{k: cases[i][k] for k in ("passes", "for_passes", "func_passes", "func_early", "body") if k in cases[i]})
                    for i in pick]
             sres, _ = run_firmware(sub, 80, san=True)
             for k, i in enumerate(pick):
@@ -1093,7 +1115,7 @@ def run(ctx: C.Ctx):
     ctx.coverage.update({
         "evaluations": len(cases) + n_names,
         "distinct_nontrivial": distinct,
-        "rule": "call sequences on one buzzer: (1) every point of the boundary grids (play_tone f x d, beep f x (on,off) x times, sweep s x e x (d,steps), melody x tempo; quick tier cycles the inner product, thorough takes it in full) chained four per case, literal and run-time (analog_read-routed) arguments alternating; (2) all ordered pairs over a 29-call boundary alphabet in four literal/run-time routings; (3) seeded random sequences of length <= 8 with per-argument routing, omitted defaults, keyword/positional spellings and case variants of melody names; (4) a body of 1-4 calls executed for 2-3 passes, inside `while True:` (loop(), state carried by the globals) or inside `for k in range(P):` in setup(); (5) two buzzers on different pins with randomly interleaved calls (each compared with its own model run; events on a foreign pin are failures). (6) state feedback: a seed call, then 1-3 calls whose frequency / start / end / tempo argument is `get_last_frequency() * a + b` or `get_frequency() * a + b` of the same buzzer (the model evaluates the expression in its own state; the oracle takes the getter value the firmware printed just before the call). Thorough tier: a seventh of the cases re-run under clang++ ASan+UBSan. Getters are printed before the first and after every call. Non-trivial = contains a call other than stop; distinct by (default, calls).",
+        "rule": "call sequences on one buzzer: (1) every point of the boundary grids (play_tone f x d, beep f x (on,off) x times, sweep s x e x (d,steps), melody x tempo; quick tier cycles the inner product, thorough takes it in full) chained four per case, literal and run-time (analog_read-routed) arguments alternating; (2) all ordered pairs over a 29-call boundary alphabet in four literal/run-time routings; (3) seeded random sequences of length <= 8 with per-argument routing, omitted defaults, keyword/positional spellings and case variants of melody names; (4) a body of 1-4 calls executed for 2-3 passes, inside `while True:` (loop(), state carried by the globals) inside `for k in range(P):` in setup(), or inside a user-defined function called P times; (5) two buzzers on different pins with randomly interleaved calls (each compared with its own model run; events on a foreign pin are failures). (6) state feedback: a seed call, then 1-3 calls whose frequency / start / end / tempo argument is `get_last_frequency() * a + b` or `get_frequency() * a + b` of the same buzzer (the model evaluates the expression in its own state; the oracle takes the getter value the firmware printed just before the call). Thorough tier: a seventh of the cases re-run under clang++ ASan+UBSan. Getters are printed before the first and after every call. Non-trivial = contains a call other than stop; distinct by (default, calls).",
         "samples": [cases[0], cases[len(cases) // 2], cases[-1]],
         "distribution": {**dist, "cases": len(cases), "calls_compared": n_calls, "sketches": n_sketches,
                          "cases_clean": n_ok, "cases_rerun_under_sanitizers": n_san, "outside_guard_not_generated": n_out_guard, "feedback_cases_not_exact_dropped": n_feedback_dropped, "tone_zero_cases_compared_not_judged": n_tone_zero,
@@ -1105,7 +1127,7 @@ def run(ctx: C.Ctx):
                        "static_cast<unsigned long> of a negative value (wrap-around for int expressions, undefined for float expressions; [neg] oracle in the model)",
                        "non-ASCII melody names (str.lower of U+212A)", "IEEE specials", "several buzzers sharing one pin",
                        "what the real Arduino core does with tone(pin, 0) (the mock only logs it)",
-                       "calls on a receiver that was never declared as Buzzer; buzzer calls under if/try/with or inside user-defined functions (statement layer: C01/C05/C07; `for` and `while True:` are exercised)",
+                       "calls on a receiver that was never declared as Buzzer; buzzer calls under if/try/with (statement layer: C01/C05/C07; `for`, `while True:` and parameterless user functions are exercised)",
                        "a Buzzer declared inside a block (its globals are then never declared: the sketch does not compile - C06)"],
         "trusted_base": C.COMMON_TRUSTED + ["harness/gen/melodies.py (translator plug-in for the melody tables)",
                                              "mock Arduino core mock/* (tone/noTone/delay/Serial.println/analogRead), g++ -O0",
